@@ -137,5 +137,6 @@ void PollPoller::removeChannel(Channel* channel)
     channels_[channelAtEnd]->set_index(idx);
     pollfds_.pop_back();
   }
+  channel->set_index(-1);
 }
 
